@@ -163,9 +163,45 @@ def run_reader(fo, want_states=False):
     return [len(flows), end]
 
 
+def staged_outcome(loaded):
+    """what Flow.from_state(compat.migrate_flow(loaded)) does, by stage (alphabet: see Driver/WireC36.lean `outcome`)"""
+    called = []
+    orig = compat.converters
+    def counting(f):
+        def g(d):
+            called.append(1)
+            return f(d)
+        return g
+    compat.converters = {k: counting(f) for k, f in orig.items()}
+    try:
+        try:
+            st = compat.migrate_flow(loaded)
+        except ValueError:
+            return "w" if called else "V"
+        except Exception:
+            return "y" if called else "X"
+    finally:
+        compat.converters = orig
+    try:
+        flow.Flow.from_state(st)
+        return "o"
+    except CaseTimeout:
+        raise
+    except BaseException as e:  # noqa
+        tb, last = e.__traceback__, None
+        while tb is not None:
+            last, tb = tb, tb.tb_next
+        code = last.tb_frame.f_code
+        in_dispatch = code.co_name == "from_state" and code.co_filename.endswith(os.path.join("mitmproxy", "flow.py"))
+        cls = "v" if isinstance(e, ValueError) else ("x" if isinstance(e, Exception) else "n")
+        if cls == "n": return "n"
+        if called: return {"v": "w", "x": "y"}[cls]
+        return cls.upper() if in_dispatch else cls
+
+
 def record_outcomes(data):
     """walk the file with the real tnetstring.load and classify what
-    Flow.from_state(compat.migrate_flow(record)) does for every dict record (model parameter)."""
+    Flow.from_state(compat.migrate_flow(record)) does for every dict record the reader gets to see."""
     fo = io.BytesIO(data)
     out = []
     while True:
@@ -175,17 +211,9 @@ def record_outcomes(data):
             break
         if not isinstance(v, dict):
             break
-        try:
-            flow.Flow.from_state(compat.migrate_flow(v))
-            out.append("o")
-        except ValueError:
-            out.append("v"); break
-        except Exception:
-            out.append("x"); break
-        except CaseTimeout:
-            raise
-        except BaseException:
-            out.append("n"); break
+        c = staged_outcome(v)
+        out.append(c)
+        if c != "o": break
     return "".join(out) or "-"
 
 
@@ -665,6 +693,20 @@ class Check(PropertyCheck):
         return [f"reading did not return within {self.case_timeout}s (the reader hangs on this input)"]
 
     # ---------------------------------------------------------------------------------------------
+    def translate(self):
+        # (T) the registered flow types (Flow.__types, with the test helper's DummyFlow since mitmproxy.test.tflow is
+        # imported here) and — via C38's translator — the converter graph and current format version
+        types = sorted(flow.Flow._Flow__types)
+        rows = ", ".join("[" + ", ".join("0x%02x" % c for c in t.encode()) + "]" for t in types)
+        src = ("-- GENERATED on every run by harness/c36.py from the live Flow.__types registry of /repo — do not edit\n"
+               "-- " + " ".join(types) + "\n"
+               "import MitmVerif.Basic.Bytes\nnamespace MitmVerif.Gen.C36\n\n"
+               f"def flowTypes : List MitmVerif.Bytes := [{rows}]\n\nend MitmVerif.Gen.C36\n")
+        out = {"MitmVerif/Gen/C36.lean": src}
+        import c38
+        out.update(c38.Check().translate())
+        return out
+
     def setup(self, tier):
         # the quick tier is cheaper without a process pool (fork + pickling cost more than the cases)
         self.parallel = tier == "thorough"
@@ -703,6 +745,24 @@ class Check(PropertyCheck):
         elif c < 0.86: d = bytes(r.getrandbits(8) for _ in range(r.randint(0, 40)))
         elif c < 0.90: d = r.choice([b"", b"{", b"\xef\xbb\xbf{", b"\xef\xbb\xbf", b"{}", b'{"log":{"entries":[]}}', b"\xef\xbb\xbf" + b'{"log":{"entries":[1]}}',
                                      b'{"log"', b"[" * 5000, b"{" + b'"a":[' * 3000])
+        elif c < 0.93:
+            # a complete flow state whose version / type fields take every shape the reader's dispatch distinguishes
+            st = build_flow({"t": r.choice(FLOW_TYPES), "seed": r.getrandbits(32), "plain": 1}).get_state()
+            vers = [21, 20, 19, 10, 4, 3, 22, 99, 0, -1, True, False, None, 1.5, 21.0, "21", "", b"\x00\x0b", b"\x00\x12\x07", b"ab", b"", [0, 11], [0, 18],
+                    [0, 11, 5], [3, 0], [1, 0], [2, 0, 0], [False, 11], [0.0, 11], [[1], 2], [0, {}], [0], [], [-1, 2], ["0", "11"], [None, None], {"a": 1}, {},
+                    {0: 1, 11: 2}, {3: 0, 0: 0}, {1.5: 0}, [21], [21, 0], 2**70]
+            types = ["http", "tcp", "udp", "dns", "dummy", "xx", "", "HTTP", b"http", None, 5, True, 1.5, [1], {}, ["http"]]
+            which = r.randrange(6)
+            if which in (0, 1, 2): st["version"] = r.choice(vers)
+            if which == 2: st[b"version"] = r.choice(vers)
+            if which == 3: del st["version"]; st[b"version"] = r.choice(vers)
+            if which == 4: st["type"] = r.choice(types)
+            if which == 5:
+                if r.random() < 0.5: del st["type"]
+                else: st[b"type"] = st.pop("type")
+            if r.random() < 0.2: st["type"] = r.choice(types)
+            d = tnetstring.dumps(st)
+            if r.random() < 0.3: d = tnetstring.dumps(build_flow({"t": "tcp", "seed": 1, "plain": 1}).get_state()) + d
         elif c < 0.95: d = tnetstring.dumps(r.choice([{}, {"version": 21}, {"version": 21, "type": "http"}, {b"version": [0, 18]}, {"version": 99},
                                                        {"version": "x"}, {"version": 21, "type": "dns", "id": "x"}, {"version": [0]}, {"version": None}, [1, 2], 5, {"version": 4}]))
         else:
@@ -921,7 +981,7 @@ class Check(PropertyCheck):
     def impl_view(self, case, obs):
         k = case["k"]
         def rd(r):
-            return "har" if self._is_har(obs, case) else f"{r[0]} {'escapes' if r[1].startswith('other:') else r[1]}"
+            return "har" if self._is_har(obs, case) else f"{r[0]} {'escapes' if r[1].startswith('other:') else r[1]} {obs['outcomes']}"
         if k == "val":
             return {"dumps": obs["dumps_hex"], "enc": obs["dumps_hex"], "pop": obs["pop"], "load": obs["load"]}
         if k == "raw":
@@ -932,7 +992,7 @@ class Check(PropertyCheck):
                 return "rec" if r == ["err", "RecursionError"] else "norec"
             return r[0] if r[0] == "ok" else "err " + r[1]
         if k == "flows":
-            return {"records": obs["records_hex"], "read": f"{obs['read'][0]} {obs['read'][1]}"}
+            return {"records": obs["records_hex"], "read": f"{obs['read'][0]} {obs['read'][1]} {'o' * obs['n'] or '-'}"}
         if k == "mut":
             return rd(obs["read"])
 
@@ -960,7 +1020,7 @@ class Check(PropertyCheck):
         elif k == "mut":
             out.append("mut:read:%s:%s" % (min(obs["read"][0], 3), obs["read"][1]))
             oc = obs["outcomes"]
-            if oc[-1:] in ("v", "x"): out.append("mut:from_state:" + oc[-1])
+            if oc[-1:] in ("v", "x", "V", "X", "w", "y"): out.append("mut:from_state:" + oc[-1])
         elif k == "flows":
             for sp in case["specs"]: out.append("flow:" + sp["t"] + (":stock" if sp.get("plain") else ""))
         elif k == "deep":
